@@ -88,6 +88,29 @@ def instance_pool(r, n=6):
     return {'base': base, 'images': out, 'segs': segs, 'rts': rts, 'series': [f'{base}.1', f'{base}.4']}
 
 
+# measurement values: "nice" quarters as before, values whose shortest decimal form needs more than the 16 characters of a
+# DS (computed means / volumes: the exact value then lives in FloatingPointValue only), ints (no FloatingPointValue at all),
+# tiny / huge magnitudes, negative zero-ish values
+LONG_VALUES = [0.1 + 0.2, 1 / 3, -1 / 3, 100.68214285714285, 2 / 3 * 1e-5, 123456.78901234567, -98765.4321e10 / 7, 1e-7 / 3,
+               7.000000000000001, 5e-324 * 2 ** 60]
+INT_VALUES = [7, -3, 0, 1234567]
+
+
+def measurement_value(r):
+    u = r.random()
+    if u < 0.5:
+        return r.randint(-40, 40) / 4
+    if u < 0.8:
+        return r.choice(LONG_VALUES)
+    return r.choice(INT_VALUES)
+
+
+def value_kind(v):
+    if isinstance(v, int):
+        return 'int'
+    return 'long-decimal' if len(repr(v)) > 16 else 'short-decimal'
+
+
 def _measurement_extras(r, pool):
     """optional parts of a single measurement (children of the NUM item)"""
     if r.random() < 0.6:
@@ -109,7 +132,7 @@ def group_params(r, pool, idx, kinds=('planar', 'volumetric', 'image')):
          'finding_type': r.choice(FINDINGS + [None]), 'finding_category': r.choice(CATEGORIES + [None, None]),
          'finding_sites': r.sample(SITES, r.choice([0, 0, 1, 1, 2])), 'method': r.choice(METHODS_ + [None, None]),
          'lateralities': [],
-         'measurements': [(r.choice(MEAS), r.randint(-40, 40) / 4, ('mm', 'UCUM'), _measurement_extras(r, pool))
+         'measurements': [(r.choice(MEAS), measurement_value(r), ('mm', 'UCUM'), _measurement_extras(r, pool))
                           for _ in range(r.choice([0, 1, 1, 2]))],
          'evaluations': [(r.choice(EVALS), r.choice(ANSWERS)) for _ in range(r.choice([0, 0, 1, 2]))],
          'geometric_purpose': None, 'template': r.random() < 0.6, 'context': ctx}
